@@ -73,6 +73,7 @@ type FnEnc struct {
 	parent   *FnEnc // inlining caller (its unescaped locals survive our havocs too)
 	lastRes  map[string]lastCall
 	callOrd  map[*ssa.CallCommon]int
+	checkAtHit map[*CheckAt]int
 	locals   []*ssa.Alloc
 }
 
@@ -874,6 +875,66 @@ func (f *FnEnc) specCtx(st *State, at *ssa.BasicBlock, extra map[string]binding)
 	return ctx
 }
 
+// ensureCallOrd numbers the call sites of every callee in source order (block numbering does not
+// follow the source).
+func (f *FnEnc) ensureCallOrd() {
+	if f.callOrd != nil {
+		return
+	}
+	f.callOrd = map[*ssa.CallCommon]int{}
+	var sites []*ssa.Call
+	for _, b := range f.fn.Blocks {
+		for _, ins := range b.Instrs {
+			if call, ok := ins.(*ssa.Call); ok && calleeKey(&call.Call) != "" {
+				sites = append(sites, call)
+			}
+		}
+	}
+	sort.SliceStable(sites, func(i, j int) bool { return sites[i].Pos() < sites[j].Pos() })
+	cnt := map[string]int{}
+	for _, call := range sites {
+		k := calleeKey(&call.Call)
+		cnt[k]++
+		f.callOrd[&call.Call] = cnt[k]
+	}
+}
+
+// checkAts: obligations attached to program points by the function's contract (check-at).
+func (f *FnEnc) checkAts(ins ssa.Instruction, callee string) {
+	if !f.top || f.spec == nil || len(f.spec.CheckAts) == 0 {
+		return
+	}
+	for _, ca := range f.spec.CheckAts {
+		match := false
+		if ca.Send {
+			_, match = ins.(*ssa.Send)
+		} else if callee != "" {
+			want := ca.Callee
+			if i := strings.Index(want, "#"); i >= 0 {
+				// k-th call site in source order
+				if call, ok := ins.(*ssa.Call); ok {
+					f.ensureCallOrd()
+					match = want[:i] == callee && fmt.Sprint(f.callOrd[&call.Call]) == want[i+1:]
+				}
+			} else {
+				match = want == callee
+			}
+		}
+		if !match {
+			continue
+		}
+		if f.checkAtHit == nil {
+			f.checkAtHit = map[*CheckAt]int{}
+		}
+		f.checkAtHit[ca]++
+		ctx := f.specCtx(f.st, f.blk, nil)
+		ctx.atReturn = true
+		g := f.evalClauseSafe(ctx, ca.Cond)
+		o := f.addObl("check-at", ca.Label+"@"+f.srcAt(ins.Pos()), g, ins.Pos(), ca.Props, ca.Cond.Src)
+		_ = o
+	}
+}
+
 func debugRefName(d *ssa.DebugRef) string {
 	if id, ok := d.Expr.(*ast.Ident); ok {
 		return id.Name
@@ -1147,25 +1208,7 @@ func (f *FnEnc) recordCall(c *ssa.CallCommon, res Val) {
 	}
 	defer func() {
 		// also under "key#k": the k-th call site of this callee in the function (source order)
-		if f.callOrd == nil {
-			f.callOrd = map[*ssa.CallCommon]int{}
-			// call sites numbered in source order (block numbering does not follow the source)
-			var sites []*ssa.Call
-			for _, b := range f.fn.Blocks {
-				for _, ins := range b.Instrs {
-					if call, ok := ins.(*ssa.Call); ok && calleeKey(&call.Call) != "" {
-						sites = append(sites, call)
-					}
-				}
-			}
-			sort.SliceStable(sites, func(i, j int) bool { return sites[i].Pos() < sites[j].Pos() })
-			cnt := map[string]int{}
-			for _, call := range sites {
-				k := calleeKey(&call.Call)
-				cnt[k]++
-				f.callOrd[&call.Call] = cnt[k]
-			}
-		}
+		f.ensureCallOrd()
 		if n, ok := f.callOrd[c]; ok {
 			f.lastRes[fmt.Sprintf("%s#%d", key, n)] = f.lastRes[key]
 		}
